@@ -2235,6 +2235,98 @@ def site_resolve_value_bounded(fns):
     return ob.result(it, witness="c18_read_of_clobbered_record_terminates")
 
 
+# ============================================================================ C05: the allocation loop of process_write_batch
+def site_write_batch_allocation(fns):
+    f = mir.find(fns, "::process_write_batch", None)
+    ob = Ob("site_process_write_batch_allocation", "write_buffer::process_write_batch, one ARBITRARY iteration of the allocation loop (state havocked): a prepared write that "
+            "already holds a reservation reuses exactly that sector and allocates nothing; otherwise allocate_sectors is asked for THIS write's sectors_needed and, only on Ok, "
+            "the sector is reserved on this write's entry, disk_usage grows by sectors_needed*4096, the write remembers the sector, and the batch gets exactly one device write "
+            "(that sector, this write's own data, token stamped for that sector first when the format has tokens); on allocation failure nothing is queued for the device in this "
+            "iteration, the allocator lock is dropped before release_allocations gives back what the batch had taken, and the error is returned",
+            "one iteration of `for index in 0..prepared_writes.len()` from an arbitrary state", f)
+    hdrs = [bb for bb, st in f.blocks.items() if "Range<usize> as Iterator>::next" in st[-1]]
+    if len(hdrs) != 1:
+        raise mir.MirError("allocation loop header not found (%d candidates)" % len(hdrs))
+    agg = re.search(r"= PreparedWrite \{ ([^}]*) \}", f.text)
+    fn_ = [x.split(":")[0].strip() for x in agg.group(1).split(", ")] if agg else []
+    if not all(n in fn_ for n in ("data", "sectors_needed", "entry", "sector")):
+        raise mir.MirError("PreparedWrite fields not found")
+    F = {n: fn_.index(n) for n in fn_}
+    it = Interp(f, loop_bound=1, pure=PURE, max_paths=20000)
+    fresh_n = reuse_n = fail_n = 0
+    for p in it.run(None, start=hdrs[0], stop=(hdrs[0],)):
+        ob.paths += 1
+        if p.status == "truncated":
+            ob.truncated += 1
+        if p.status not in ("backedge", "return"):
+            continue
+        rn = [e for e in p.events if e.kind == "call" and e.callee.endswith("Range<usize> as Iterator>::next")]
+        if not rn:
+            continue
+        i = it.ctx.uf("proj_Some_0", [U], z3.BitVecSort(64))(it.as_u(rn[0].ret))
+        elems = [e for e in p.events if e.kind == "call" and e.callee.startswith("<Vec<PreparedWrite> as") and ("Index<usize>>::index" in e.callee or "IndexMut<usize>>::index_mut" in e.callee)]
+        if not elems:
+            continue     # the range was exhausted: the write phase follows (site_process_write_batch_protocol)
+        # the same (vector, index) denotes the same element
+        eqs = []
+        for e in elems:
+            ob.need(it, e.pc, e.args[1] == i, "the loop touches only prepared_writes[index]")
+            eqs.append(it.as_u(e.ret) == it.as_u(elems[0].ret))
+        el = it.as_u(elems[0].ret)
+        need = it.ctx.uf("proj__%d" % F["sectors_needed"], [U], z3.BitVecSort(64))(el)
+        entry = it.ctx.uf("proj__%d" % F["entry"], [U], U)(el)
+        data = it.ctx.uf("proj__%d" % F["data"], [U], U)(el)
+        secopt = it.ctx.uf("proj__%d" % F["sector"], [U], U)(el)
+        al = events(p, "FreeSpaceManager::allocate_sectors")
+        rs = events(p, "reserve_sector")
+        fa = [e for e in events(p, "Atomic::fetch_add") if z3.is_bv(e.args[1]) and e.args[1].size() == 64]
+        pushes = [e for e in events(p, "Vec::push") if isinstance(e.args[1], mir.Tup) and len(e.args[1].fields) == 2]
+        rel = events(p, "release_allocations")
+        pc = list(p.pc) + eqs
+        if p.status == "backedge":
+            if not ob.must_hold(len(pushes) == 1, "a completed iteration queues exactly one device write"):
+                continue
+            psec, pdat = pushes[0].args[1].fields
+            tk = [e for e in p.events if e.kind == "call" and e.callee.endswith("mem::take")]
+            ob.must_hold(len(tk) == 1 and z3.is_expr(tk[0].args[0]) and it.entails(pc, it.as_u(tk[0].args[0]) == data)[0], "the queued bytes are taken from THIS write's data buffer")
+            st_ = events(p, "stamp_seq_token")
+            if al:
+                fresh_n += 1
+                ok_sec = it.ctx.uf("proj_Ok_0", [U], z3.BitVecSort(64))(it.as_u(al[0].ret))
+                ob.need(it, pc, it.ctx.disc(it.as_u(al[0].ret)) == 0, "a device write is queued only when the allocation succeeded")
+                ob.need(it, list(al[0].pc) + eqs, al[0].args[1] == need, "allocate_sectors is asked for this write's sectors_needed")
+                ob.need(it, list(al[0].pc) + eqs, it.ctx.disc(secopt) == 0, "a fresh allocation happens only for a write without a reservation")
+                if ob.must_hold(len(rs) == 1, "the allocated sector is reserved exactly once"):
+                    ob.need(it, pc, z3.And(it.as_u(rs[0].args[0]) == entry, rs[0].args[1] == ok_sec), "reserve_sector(this write's entry, the allocated sector)")
+                if ob.must_hold(len(fa) == 1, "disk_usage is adjusted exactly once"):
+                    ob.need(it, pc, fa[0].args[1] == need * z3.BitVecVal(4096, 64), "disk_usage += sectors_needed * 4096")
+                ws = [e for e in p.events if e.kind == "write" and e.callee.endswith(".%d" % F["sector"])]
+                if ob.must_hold(len(ws) == 1, "the write remembers its sector"):
+                    ob.need(it, pc, z3.And(it.ctx.disc(it.as_u(ws[0].args[1])) == 1, it.ctx.uf("proj_Some_0", [U], z3.BitVecSort(64))(it.as_u(ws[0].args[1])) == ok_sec),
+                            "prepared_writes[index].sector = Some(allocated sector)")
+                ob.need(it, pc, psec == ok_sec, "the device write goes to the allocated sector")
+            else:
+                reuse_n += 1
+                ob.need(it, pc, z3.And(it.ctx.disc(secopt) == 1, psec == it.ctx.uf("proj_Some_0", [U], z3.BitVecSort(64))(secopt)),
+                        "without an allocation the device write goes to the write's existing reservation")
+                ob.must_hold(not rs and not fa, "reusing a reservation reserves nothing and does not touch disk_usage")
+            for e in st_:
+                ob.need(it, pc, z3.And(it.as_u(e.args[0]) == data, e.args[1] == psec), "the token is stamped on this write's data for the sector it is written to")
+                ob.must_hold(idx_of(p, e) < idx_of(p, tk[0]) if tk else False, "stamped before the bytes are handed to the batch")
+        elif al:
+            failed, _ = it.entails(p.pc, it.ctx.disc(it.as_u(al[0].ret)) != 0)
+            if failed:
+                fail_n += 1
+                ob.must_hold(not pushes and not rs and not fa, "a failed allocation queues, reserves and counts nothing")
+                dr = [e for e in p.events if (e.kind == "drop" and "FreeSpaceManager" in e.callee) or
+                      (e.kind == "call" and "drop" in e.callee.rsplit("::", 1)[-1] and "FreeSpaceManager" in getattr(e, "raw", e.callee))]
+                if ob.must_hold(len(rel) == 1, "what the batch had allocated is rolled back once"):
+                    ob.must_hold(bool(dr) and idx_of(p, dr[0]) < idx_of(p, rel[0]), "the allocator write lock is dropped before release_allocations takes it again")
+                ob.must_hold(not events(p, "DiskIO::batch_write_bytes") and not events(p, "DiskIO::write_allocation_journal"), "no device call after a failed allocation")
+    ob.must_hold(fresh_n >= 1 and reuse_n >= 1 and fail_n >= 1, "fresh-allocation, reuse and failure iterations were reached (%d/%d/%d)" % (fresh_n, reuse_n, fail_n))
+    return ob.result(it, witness="c13_model_accounting_and_reopen+c02_flush_covers_requeued_writes")
+
+
 # ============================================================================ C19: which worker owns which shard
 def c19(fns, tier, env):
     return finalize([site_shard_ownership(fns), site_coordinator_liveness(fns), site_flush_worker_requeue(fns)], env)
@@ -2743,7 +2835,7 @@ def c16(fns, tier, env):
 
 def c05(fns, tier, env):
     """the block-ownership partition seen from the paths that move blocks between owners"""
-    return finalize([site_process_deletions(fns), site_write_batch_protocol(fns), site_recovery_expired_winners(fns), site_flush_all(fns), scan_epilogue(fns), scan_iteration(fns)], env)
+    return finalize([site_process_deletions(fns), site_write_batch_protocol(fns), site_write_batch_allocation(fns), site_recovery_expired_winners(fns), site_flush_all(fns), scan_epilogue(fns), scan_iteration(fns)], env)
 
 
 def c02(fns, tier, env):
@@ -2751,7 +2843,7 @@ def c02(fns, tier, env):
 
 
 def c09(fns, tier, env):
-    return finalize([kernel_poison(fns), site_force_flush(fns), site_flush_worker_requeue(fns), site_process_deletions(fns), site_write_batch_protocol(fns), site_retire_extents(fns),
+    return finalize([kernel_poison(fns), site_force_flush(fns), site_flush_worker_requeue(fns), site_process_deletions(fns), site_write_batch_protocol(fns), site_write_batch_allocation(fns), site_retire_extents(fns),
                      site_journal_write(fns, "write_allocation_journal"), site_journal_write(fns, "clear_allocation_journal")], env)
 
 
